@@ -2,3 +2,5 @@ import AITB.Model.Num
 import AITB.Model.Proto
 import AITB.Model.Factored
 import AITB.Props.C14
+import AITB.Model.VE
+import AITB.Model.VETable
